@@ -50,18 +50,17 @@ UNITS += [
 ]
 
 L3STOPS = ["asmjit::JitAllocator_fill_pattern", "asmjit::Lock::lock", "asmjit::Lock::unlock", "asmjit::VirtMem::protect_jit_memory", "asmjit::ArenaTree::get"]
-L3REPL = ["JitAllocator_fill_pattern", "Lock_lock", "Lock_unlock", "VirtMem_protect_jit_memory", "VirtMem_flush_instruction_cache",
-          "ArenaTree_JitAllocatorBlock_get_u8_p_Support_Compare_Support_SortOrder_kAscending"]
-L3TRUST = ["ArenaTree<JitAllocatorBlock>::get replaced by an ASSUMED contract (returns the block whose executable view contains the pointer, else NULL)",
+L3REPL = ["JitAllocator_fill_pattern", "Lock_lock", "Lock_unlock", "VirtMem_protect_jit_memory", "VirtMem_flush_instruction_cache"]
+L3TRUST = ["ArenaTree<JitAllocatorBlock>::get modelled by an ASSUMED stub (returns the block whose executable view contains the pointer, else NULL)",
            "JitAllocator_fill_pattern, Lock::lock/unlock, VirtMem::protect_jit_memory/flush_instruction_cache, JitAllocatorImpl_removeBlock/deleteBlock replaced by assumed contracts that record their arguments"]
 UNITS += [
-    Unit(name="c09.alloc.release", props=["C09", "C14"], tiers=("dev",), tu=JA, roots=["asmjit::JitAllocator::release"],
+    Unit(name="c09.alloc.release", props=["C09", "C14"], tu=JA, roots=["asmjit::JitAllocator::release"],
          stops=L3STOPS + ["asmjit::JitAllocatorBlock::mark_released_area", "asmjit::JitAllocatorImpl_removeBlock", "asmjit::JitAllocatorImpl_deleteBlock"],
          target="JitAllocator_release", contracts="contracts/c09_release.h",
          replace=L3REPL + ["JitAllocatorBlock_mark_released_area", "JitAllocatorImpl_removeBlock", "JitAllocatorImpl_deleteBlock"],
          quick_defines=QW, thorough_defines=TW, unwind=24, object_bits=9, mem_gb=28, kind="bounded", bound_note=BNK + "; granularity 64/128/256; one block",
          note="modular: JitAllocatorBlock::mark_released_area replaced by its contract (unit c09.block.mark_released_area)", trusted=L3TRUST),
-    Unit(name="c09.alloc.query", props=["C09", "C14"], tiers=("dev",), tu=JA, roots=["asmjit::JitAllocator::query"], stops=L3STOPS,
+    Unit(name="c09.alloc.query", props=["C09", "C14"], tu=JA, roots=["asmjit::JitAllocator::query"], stops=L3STOPS,
          target="JitAllocator_query", contracts="contracts/c09_release.h", replace=[r for r in L3REPL if "fill" not in r and "VirtMem" not in r],
          quick_defines=QW, thorough_defines=TW, unwind=24, object_bits=9, mem_gb=28, kind="bounded", bound_note=BNK + "; granularity 64/128/256; one block", trusted=L3TRUST[:1]),
 ]
